@@ -402,12 +402,14 @@ func ruleSetExponentArgs(w *World, r *RuleResult) {
 			// a derived context: its limits must come from c (WithPrecision on c) or be stored from c's
 			ce := w.exprOf(f, ctx)
 			fromC := false
-			ce.walk(func(x *Expr) bool {
-				if x.Op == "call" && x.Name == "(*Context).WithPrecision" && len(x.Args) > 0 && x.Args[0].String() == "c" {
-					fromC = true
+			if ci := w.ctxCtor(ctx); ci != nil {
+				if pr, isP := ci.fromParam(); isP && pr == f.Params[0] {
+					// a copy of the caller's context; its limits are the caller's unless the constructor overwrote them
+					_, mx := ci.Consts["MaxExponent"]
+					_, mn := ci.Consts["MinExponent"]
+					fromC = !mx && !mn
 				}
-				return true
-			})
+			}
 			if !fromC {
 				isC := func(in ssa.Instruction) bool { return in == ssa.Instruction(c) }
 				mx := w.lastStoresVia(f, ctx, "MaxExponent", isC)
@@ -438,6 +440,32 @@ func ruleParityNeedsExponentZero(w *World, r *RuleResult) {
 				continue
 			}
 			if k, ok := c.Common().Args[1].(*ssa.Const); !ok || ci(k) != 0 {
+				continue
+			}
+			// the rule is about the parity of the VALUE (odd integer exponents decide a sign); the parity of
+			// the coefficient's last digit, used to break a rounding tie on that very coefficient, is a
+			// different and legitimate use: it steers an increment of the same coefficient
+			tieBreak := false
+			if refs := c.Referrers(); refs != nil {
+				for _, u := range *refs {
+					bo, isB := u.(*ssa.BinOp)
+					if !isB {
+						continue
+					}
+					for _, blk := range f.Blocks {
+						iff, isIf := blk.Instrs[len(blk.Instrs)-1].(*ssa.If)
+						if !isIf || !w.condMentions(iff.Cond, bo) {
+							continue
+						}
+						for _, in := range blk.Succs[0].Instrs {
+							if ac, isCall := in.(*ssa.Call); isCall && w.calleeName(ac) == "(*BigInt).Add" && basePtr(ac.Common().Args[0]) == basePtr(fa) {
+								tieBreak = true
+							}
+						}
+					}
+				}
+			}
+			if tieBreak {
 				continue
 			}
 			n++
@@ -496,7 +524,19 @@ func ruleFastPathWriteBack(w *World, r *RuleResult) {
 		}
 		ev, ok1 := val.(*ssa.Extract)
 		en, ok2 := neg.(*ssa.Extract)
-		if ok1 && ok2 && ev.Tuple == en.Tuple && en.Index == ev.Index+1 {
+		paired := false
+		if ok1 && ok2 && ev.Tuple == en.Tuple {
+			if hc, ok := ev.Tuple.(*ssa.Call); ok {
+				if h := callee(hc); h != nil {
+					for _, pr := range inlinePairs(h.Signature) {
+						if pr[0] == ev.Index && pr[1] == en.Index {
+							paired = true
+						}
+					}
+				}
+			}
+		}
+		if paired {
 			if hc, ok := ev.Tuple.(*ssa.Call); ok && strings.HasSuffix(w.calleeName(hc), "Inline") {
 				r.ok(key, w.instrPos(c), fmt.Sprintf("(val, neg) = results #%d,#%d of %s", ev.Index, en.Index, w.calleeName(hc)), true)
 				continue
@@ -504,4 +544,33 @@ func ruleFastPathWriteBack(w *World, r *RuleResult) {
 		}
 		r.bad(key, w.instrPos(c), "value "+short(w.exprOf(f, val).String(), 80)+" and sign "+short(w.exprOf(f, neg).String(), 80)+" do not come from one *Inline helper: the zero-is-never-negative normalisation is bypassed")
 	}
+}
+
+// condMentions: v occurs in the (φ-expanded) condition cond.
+func (w *World) condMentions(cond ssa.Value, v ssa.Value) bool {
+	seen := map[ssa.Value]bool{}
+	var walk func(x ssa.Value) bool
+	walk = func(x ssa.Value) bool {
+		if x == v {
+			return true
+		}
+		if seen[x] {
+			return false
+		}
+		seen[x] = true
+		switch y := x.(type) {
+		case *ssa.Phi:
+			for _, e := range y.Edges {
+				if walk(e) {
+					return true
+				}
+			}
+		case *ssa.BinOp:
+			return walk(y.X) || walk(y.Y)
+		case *ssa.UnOp:
+			return walk(y.X)
+		}
+		return false
+	}
+	return walk(cond)
 }
